@@ -531,7 +531,10 @@ def post_exchange(ctx, c):
     qname = wire_len(labels)
     dgram = 12 + qname + 4 + (2 + 10 + txt_len(body)) + 11
     resp_ok = dgram <= 1232 and 16 + len(resp) <= 65535
-    kind = ("req-too-long" if not req_ok else "ok" if resp_ok else "resp-too-long")
+    # beyond the 16-bit framing / RDLENGTH the responder's encoders return an error (logged there) and nothing is sent:
+    # the requester then sees what it sees for a lost datagram (it has no timeout of its own) - it must not return a value
+    resp_encodable = 16 + len(resp) <= 65535 and txt_len(body) <= 65535
+    kind = ("req-too-long" if not req_ok else "ok" if resp_ok else "resp-too-long" if resp_encodable else "resp-unencodable")
     ctx.count(("exchange", p, resp, tuple(dom)), kind="exchange/" + kind)
     seen = bytes.fromhex(r["seenpay"]) if r["seen"] else None
     if not req_ok:
@@ -541,7 +544,7 @@ def post_exchange(ctx, c):
         elif r["ok2"] or r["seen"]:
             ctx.fail("exchange/oversize-request/accepted", "a %d-byte payload beyond the request format was delivered or answered" % len(p), case)
         return None
-    if r["timeout"]:
+    if r["timeout"] and resp_encodable:
         ctx.fail("exchange/timeout", "no result for a representable %d-byte request (answer %d bytes)" % (len(p), len(resp)), case)
         return None
     if seen != p:
@@ -941,9 +944,9 @@ def run(ctx):
                        "near-valid byte strings (pointer chains, loops, truncation); a case is non-trivial if it is hash-distinct "
                        "and either succeeds or exercises a distinct rejection (counted per op)")
     ctx.coq_props()
-    rc, out = ctx.coq_make(["C15/Examples.vo"])
+    rc, out = ctx.coq_make(["C15/Examples.vo", "C15/Run.vo"])
     if rc != 0:
-        ctx.broken("examples", "non-vacuity examples (C15/Examples.v) no longer check: " + out[-500:])
+        ctx.broken("examples", "non-vacuity examples (C15/Examples.v) or the case evaluator (C15/Run.v) no longer check: " + out[-500:])
     _t("coq props+examples")
     cases = replay_cases(ctx) + gen_fmt(ctx) + gen_names(ctx) + gen_req(ctx) + gen_obf(ctx) + gen_any(ctx) + gen_msg(ctx) + gen_query(ctx) + gen_exch(ctx)
     if not run_go(ctx, cases):
@@ -1021,7 +1024,7 @@ def run(ctx):
                        "exchange/ok", "exchange/req-too-long", "exchange/resp-too-long",
                        "anypb/keep/ok", "anypb/empty/ok", "anypb/tapdance/ok", "anypb/other/err", "anypb/cross-keep/err", "anypb/nil/ok"])
     _t("oracle + terms")
-    mm = ctx.coq_mismatches("all", HEADER, terms, "chk", shard=max(60, (len(terms) + 11) // 12), need_vo=["C15/Run.vo"])
+    mm = ctx.coq_mismatches("all", HEADER, terms, "chk", shard=max(60, (len(terms) + 11) // 12))
     _t("coq cases (%d terms)" % len(terms))
     if mm:
         ctx.cov["mismatches"] += len(mm)
